@@ -187,7 +187,7 @@ def run(ctx):
                 if rng.random() < 0.25: prob.prov = rng.choice([0x80, 0x20, 0x40, 0x10, 0xa0, 0xfe, 0x0e, rng.randrange(0, 256) & 0xfe])   # provider mix (supplied members poison the work buffers)
                 reqs.append(sl.Request(prob, x0, [0.0] * m, [1.0] * m, solver, direction, mode, params, tol=tol, rec_limit=0))
                 meta.append((k, prob, mu, solver, direction, mode))
-    outs = run_driver(ctx, "solve", "".join(r.to_input() for r in reqs), timeout=3000)
+    outs = run_driver(ctx, "solve", [r.to_input() for r in reqs], timeout=3000)
     if outs is None or len(outs) != len(reqs):
         ctx.broke("correspondence", "drv_solve", "driver produced %s results for %d runs rc=%s %s" % (None if outs is None else len(outs), len(reqs), getattr(ctx, "driver_rc", "?"), getattr(ctx, "driver_err", "")))
         return
@@ -244,7 +244,7 @@ def run(ctx):
                               "solver.linesearch_tolerance_factor=0", "solver.Lipschitz.L_0=1", "xcrit=" + crit]
                     lreqs.append(sl.Request(prob, x0, [], [], solver2, d, "inner", params, tol=ltol, rec_limit=0))
                     lmeta.append((k, prob, solver2, d, crit))
-    louts = run_driver(ctx, "solve", "".join(r.to_input() for r in lreqs), timeout=1500) if lreqs else []
+    louts = run_driver(ctx, "solve", [r.to_input() for r in lreqs], timeout=1500) if lreqs else []
     if louts is None or len(louts) != len(lreqs):
         ctx.broke("correspondence", "drv_solve", "liveness-regime runs: driver produced %s results for %d runs" % (None if louts is None else len(louts), len(lreqs)))
         louts = []
